@@ -38,6 +38,7 @@ pub struct Params {
     pub max_steps: u64,
     pub data_pct: u32,
     pub group_pct: u32,
+    pub mutrefs_pct: u32,
 }
 
 /// deeper bounds for the thorough tier (set once from the command line)
@@ -90,6 +91,7 @@ impl Params {
             max_steps: 4000,
             data_pct: 30,
             group_pct: 30,
+            mutrefs_pct: 12,
         }
     }
 }
@@ -265,11 +267,29 @@ impl<'p> Gen<'p> {
             }
         }
         let all = Self::elems_of(w);
+        // a collection over `&mut &lock` members (shared references borrowed mutably), sometimes
+        // with a repeat: the compiler must route it through the checked constructors
+        let free: Vec<usize> = all.iter().filter_map(|e| if let Elem::Leaf(l) = e { Some(*l) } else { None }).collect();
+        if !free.is_empty() && self.rng.chance(self.p.mutrefs_pct, 100) {
+            let mut ms: Vec<usize> = Vec::new();
+            for _ in 0..self.rng.range(1, 3) {
+                ms.push(*self.rng.pick(&free));
+            }
+            if self.rng.chance(2, 3) {
+                ms.sort();
+                ms.dedup();
+                self.rng.shuffle(&mut ms);
+            }
+            let kind = *self.rng.pick(&[OwnKind::Boxed, OwnKind::Retry, OwnKind::Ref]);
+            let cont = self.pick_cont(ms.len());
+            w.targets.push(TSpec::MutRefs { kind, cont, members: ms });
+        }
         let nt = self.r(self.p.targets);
+        let base_idx = w.targets.len();
         for i in 0..nt {
             let es = if self.p.opposite_pairs && i % 2 == 1 && self.rng.chance(60, 100) {
                 // same elements as the previous target, another arrangement / kind
-                w.elems(&w.targets[i - 1])
+                w.elems(&w.targets[base_idx + i - 1])
             } else {
                 self.random_subset(&all, self.p.target_elems)
             };
@@ -291,7 +311,7 @@ impl<'p> Gen<'p> {
             } else if self.rng.chance(self.p.nonacq_pct, 100) && !w.targets.is_empty() {
                 let tt = self.rng.below(w.targets.len());
                 let lim = self.rng.below(120) as u16;
-                let op = *self.rng.pick(&[NonAcqOp::Debug, NonAcqOp::DebugLimited(lim), NonAcqOp::DebugPayloadErr, NonAcqOp::DebugPayloadPanic, NonAcqOp::Accessors, NonAcqOp::IsPoisoned, NonAcqOp::ClearPoison, NonAcqOp::ClearPoison, NonAcqOp::Construct]);
+                let op = *self.rng.pick(&[NonAcqOp::Debug, NonAcqOp::DebugPretty, NonAcqOp::DebugLimited(lim), NonAcqOp::DebugPayloadErr, NonAcqOp::DebugPayloadPanic, NonAcqOp::Accessors, NonAcqOp::IsPoisoned, NonAcqOp::ClearPoison, NonAcqOp::ClearPoison, NonAcqOp::Construct]);
                 ops.push(BodyOp::NonAcq(op, tt));
             } else if nflat > 0 {
                 let i = self.rng.below(nflat);
@@ -339,7 +359,7 @@ impl<'p> Gen<'p> {
                 if self.rng.chance(self.p.nonacq_pct, 100) {
                     let tt = self.rng.below(w.targets.len());
                     let lim = self.rng.below(120) as u16;
-                let op = *self.rng.pick(&[NonAcqOp::Debug, NonAcqOp::DebugLimited(lim), NonAcqOp::DebugPayloadErr, NonAcqOp::DebugPayloadPanic, NonAcqOp::Accessors, NonAcqOp::IsPoisoned, NonAcqOp::ClearPoison, NonAcqOp::Construct]);
+                let op = *self.rng.pick(&[NonAcqOp::Debug, NonAcqOp::DebugPretty, NonAcqOp::DebugLimited(lim), NonAcqOp::DebugPayloadErr, NonAcqOp::DebugPayloadPanic, NonAcqOp::Accessors, NonAcqOp::IsPoisoned, NonAcqOp::ClearPoison, NonAcqOp::Construct]);
                     steps.push(Step::NonAcq(op, tt));
                 }
             }
@@ -440,6 +460,9 @@ pub fn gen_general(profile: &str, seed: u64, p: &Params) -> Scenario {
 
 /// C09: at least one retrying collection against anything, contention, try-refusal on
 pub fn gen_c09(seed: u64) -> Scenario {
+    if Rng::new(seed ^ 0x99).chance(12, 100) {
+        return gen_c09_deep(seed);
+    }
     let mut p = Params::base();
     p.coll_kinds = vec![CollKind::Retry, CollKind::Retry, CollKind::Retry, CollKind::Boxed, CollKind::Ref];
     p.single_pct = 10;
@@ -637,6 +660,13 @@ pub fn gen_c07(seed: u64) -> Scenario {
         let poison = kind != CollKind::Ref && g.rng.chance(1, 6);
         w.targets.push(TSpec::Coll { kind, cont, members, poison });
     }
+    let free: Vec<usize> = all.iter().filter_map(|e| if let Elem::Leaf(l) = e { Some(*l) } else { None }).collect();
+    if !free.is_empty() && g.rng.chance(1, 3) {
+        let ms: Vec<usize> = (0..g.rng.range(0, 4)).map(|_| *g.rng.pick(&free)).collect();
+        let kind = *g.rng.pick(&[OwnKind::Boxed, OwnKind::Retry, OwnKind::Ref]);
+        let cont = g.pick_cont(ms.len());
+        w.targets.push(TSpec::MutRefs { kind, cont, members: ms });
+    }
     // one thread: construct again (private), lock once if accepted
     let mut steps = Vec::new();
     for t in 0..w.targets.len() {
@@ -738,6 +768,18 @@ pub fn gen_quiescent(seed: u64, nonacq: bool) -> Scenario {
         w.targets.push(t);
     }
     let mut nt = nt;
+    let free: Vec<usize> = all.iter().filter_map(|e| if let Elem::Leaf(l) = e { Some(*l) } else { None }).collect();
+    if !free.is_empty() && g.rng.chance(15, 100) {
+        let mut ms: Vec<usize> = (0..g.rng.range(1, 3)).map(|_| *g.rng.pick(&free)).collect();
+        if g.rng.chance(2, 3) {
+            ms.sort();
+            ms.dedup();
+        }
+        let kind = *g.rng.pick(&[OwnKind::Boxed, OwnKind::Retry, OwnKind::Ref]);
+        let cont = g.pick_cont(ms.len());
+        w.targets.insert(nt, TSpec::MutRefs { kind, cont, members: ms });
+        nt += 1;
+    }
     for d in 0..w.datas.len() {
         let kind = *g.rng.pick(&[CollKind::Boxed, CollKind::Ref, CollKind::Retry]);
         // keep tester targets contiguous at the front
@@ -778,7 +820,7 @@ pub fn gen_quiescent(seed: u64, nonacq: bool) -> Scenario {
         let t = g.rng.below(nt);
         if nonacq {
             let (l1, l2) = (g.rng.below(150) as u16, g.rng.below(40) as u16);
-            let op = *g.rng.pick(&[NonAcqOp::Debug, NonAcqOp::DebugLimited(l1), NonAcqOp::DebugLimited(l2), NonAcqOp::DebugPayloadErr, NonAcqOp::DebugPayloadPanic, NonAcqOp::IsPoisoned, NonAcqOp::ClearPoison, NonAcqOp::Accessors, NonAcqOp::Construct]);
+            let op = *g.rng.pick(&[NonAcqOp::Debug, NonAcqOp::DebugPretty, NonAcqOp::DebugPretty, NonAcqOp::DebugLimited(l1), NonAcqOp::DebugLimited(l2), NonAcqOp::DebugPayloadErr, NonAcqOp::DebugPayloadPanic, NonAcqOp::IsPoisoned, NonAcqOp::ClearPoison, NonAcqOp::Accessors, NonAcqOp::Construct]);
             let any_t = g.rng.below(w.targets.len());
             if g.rng.chance(1, 2) {
                 tester.push(Step::NonAcq(op, any_t));
@@ -944,6 +986,25 @@ pub fn c11_variants(base: &Scenario, seed: u64) -> Vec<Scenario> {
                 }
                 let _ = a;
                 if rng.chance(1, 6) {
+                    // while the section is running, another thread's raw try on one of its locks
+                    // panics (that lock is killed under the holder's feet); then the section panics
+                    let owned = s.world.owned_leaves();
+                    let cands: Vec<usize> = s.world.flatten(&s.world.targets[a.target], None).iter().map(|f| f.lid).filter(|l| !owned.contains(l)).collect();
+                    if !cands.is_empty() {
+                        let l = cands[rng.below(cands.len())];
+                        s.world.targets.push(TSpec::Leaf(l));
+                        let tl = s.world.targets.len() - 1;
+                        s.program.threads.push(vec![Step::Acquire(Acq { target: tl, rebuild: false, api: Api::TryLock, lent_key: false, body: vec![], release: Release::Drop })]);
+                        let tid = s.program.threads.len() - 1;
+                        s.cfg.faults.oneshots = vec![crate::sched::OneShot { tid, api_idx: 0, op_idx: 0, when: if rng.chance(1, 2) { crate::sched::When::Before } else { crate::sched::When::After } }];
+                        if let Step::Acquire(a2) = &mut s.program.threads[ti][si] {
+                            // give the other thread room to run inside the hold
+                            let pos = a2.body.iter().position(|b| matches!(b, BodyOp::Panic)).unwrap_or(0);
+                            a2.body.insert(pos, BodyOp::Yield);
+                            a2.body.insert(pos, BodyOp::Yield);
+                        }
+                    }
+                } else if rng.chance(1, 6) {
                     // the panicking section itself runs inside a destructor during an unrelated unwind
                     let inner = s.program.threads[ti][si].clone();
                     s.program.threads[ti][si] = Step::InUnwind(Box::new(inner));
@@ -1113,4 +1174,54 @@ pub fn gen_c03(seed: u64) -> Scenario {
     }
     let cfg = g.cfg(80);
     Scenario { world: w, program, cfg, profile: "C03".into() }
+}
+
+/// C09, retry depth as an explicit dimension: two holder threads keep knocking a retrying
+/// acquisition of [A, B] back, alternately, exactly `2 * cycles + 1` times (every hand-over is
+/// synchronised through gates and "wait until the victim is blocked on X", so the scenario
+/// does not depend on the schedule), then let it complete.
+pub fn gen_c09_deep(seed: u64) -> Scenario {
+    let mut rng = Rng::new(seed ^ 0xD33F);
+    let rw = rng.chance(1, 2);
+    let kinds: Vec<LeafKind> = LeafKind::ALL.iter().copied().filter(|k| !rw || k.is_rw()).collect();
+    let leaves = vec![*rng.pick(&kinds), *rng.pick(&kinds)];
+    let mut slots = vec![Slot::Leaf(0), Slot::Leaf(1)];
+    rng.shuffle(&mut slots);
+    let cont = *rng.pick(&[ContKind::Vec, ContKind::BoxSlice, ContKind::Array, ContKind::Tuple]);
+    let victim_target = TSpec::Coll { kind: CollKind::Retry, cont, members: vec![TSpec::Leaf(0), TSpec::Leaf(1)], poison: false };
+    let w = WorldSpec { leaves, units: vec![], slots, targets: vec![victim_target, TSpec::Leaf(0), TSpec::Leaf(1)], datas: vec![], gates: 0, tags: 0 };
+    let cycles = rng.range(1, 20);
+    // gates: gx_k = k, gy_k = (cycles + 1) + k
+    let gx = |k: usize| k;
+    let gy = |k: usize| cycles + 1 + k;
+    let hold = |target: usize, body: Vec<BodyOp>| Step::Acquire(Acq { target, rebuild: false, api: Api::Lock, lent_key: false, body, release: Release::Drop });
+    let (a, b, victim) = (0usize, 1usize, 0usize);
+    let mut x = vec![hold(1, vec![BodyOp::GateOpen(gx(0)), BodyOp::GateWait(gy(0)), BodyOp::WaitBlocked(victim, a)])];
+    let mut y = vec![hold(2, vec![BodyOp::GateOpen(gy(0)), BodyOp::GateWait(gx(1)), BodyOp::WaitBlocked(victim, b)])];
+    for k in 1..=cycles {
+        x.push(Step::WaitBlocked(victim, b));
+        x.push(hold(1, vec![BodyOp::GateOpen(gx(k)), BodyOp::GateWait(gy(k)), BodyOp::WaitBlocked(victim, a)]));
+        y.push(Step::WaitBlocked(victim, a));
+        let mut body = vec![BodyOp::GateOpen(gy(k))];
+        if k < cycles {
+            body.push(BodyOp::GateWait(gx(k + 1)));
+        }
+        body.push(BodyOp::WaitBlocked(victim, b));
+        y.push(hold(2, body));
+    }
+    let api = if rw && rng.chance(1, 2) { *rng.pick(&[Api::Read, Api::ScopedRead]) } else { *rng.pick(&[Api::Lock, Api::ScopedLock]) };
+    let v = vec![
+        Step::GateWait(gx(0)),
+        Step::GateWait(gy(0)),
+        Step::Acquire(Acq { target: 0, rebuild: false, api, lent_key: api.is_scoped() && rng.chance(1, 2), body: vec![BodyOp::Read(0), BodyOp::Read(1)], release: Release::Drop }),
+    ];
+    let mut w = w;
+    w.gates = 2 * (cycles + 1) + 1;
+    let p = Params::base();
+    let mut g = Gen::new(seed, &p);
+    let mut cfg = g.cfg(200);
+    cfg.faults.try_refuse_pct = 0;
+    cfg.max_steps = 8000;
+    cfg.fair_after = 4000;
+    Scenario { world: w, program: Program { threads: vec![v, x, y] }, cfg, profile: "C09".into() }
 }
